@@ -78,7 +78,7 @@ def run(ctx):
             if not ("len(slice)" in txt and "Vec::len(self.data)" in txt and "Vec::capacity(self.data)" in txt and "Sub" in txt and "Add" in txt):
                 r.violate(key + "|charged-amount", f"Arena::append charges `{txt}`, expected slice.len() + len - capacity (the growth of the buffer)", f.loc())
             ra = f.deep(rt["args"][1])
-            if "len(slice)" not in ra:
+            if ra != "[T]::len(slice)":
                 r.violate(key + "|reserved-amount", f"Arena::append reserves `{ra}`, expected slice.len()", f.loc())
         else:
             cm0 = list(f.calls(r"usize::checked_mul$|checked_mul$"))
